@@ -325,7 +325,8 @@ func FitsInt64(lit string) (int64, bool) {
 		return 0, false
 	}
 	v, err := strconv.ParseInt(lit, 10, 64)
-	return v, err == nil
+	// the statement speaks of a magnitude that fits int64: -9223372036854775808 is exempt
+	return v, err == nil && v != math.MinInt64
 }
 
 // NumRepr classifies how an implementation represented a number.
